@@ -10,11 +10,46 @@
 
 (* ---- shared helpers (candidates for common.ml) ---- *)
 let () =
-  (* the extracted list functions are not tail-recursive: re-run with an unlimited stack *)
+  (* Process plumbing only.  (1) The extracted list functions are not tail-recursive: re-run with an
+     unlimited stack.  (2) Large case files are dealt round-robin to [jobs] worker processes of this same
+     program (every case is independent) and the workers' output lines are merged back in case order. *)
   if Sys.getenv_opt "SV_BIGSTACK" = None && Array.length Sys.argv >= 3 then begin
-    let cmd = Printf.sprintf "ulimit -s unlimited 2>/dev/null || ulimit -s 4000000 2>/dev/null; SV_BIGSTACK=1 OCAMLRUNPARAM=s=32M exec %s %s %s"
-        (Filename.quote Sys.executable_name) (Filename.quote Sys.argv.(1)) (Filename.quote Sys.argv.(2)) in
-    exit (Sys.command cmd)
+    let exe = Filename.quote Sys.executable_name in
+    let lines path = let ic = open_in path in
+      let rec go acc = match input_line ic with l -> go (l :: acc) | exception End_of_file -> close_in ic; List.rev acc in go [] in
+    let cases = Array.of_list (lines Sys.argv.(1)) and impl = Array.of_list (lines Sys.argv.(2)) in
+    let n = Array.length cases in
+    let jobs = if n < 2000 then 1 else 8 in
+    if jobs = 1 || Array.length impl <> n then
+      exit (Sys.command (Printf.sprintf "ulimit -s unlimited 2>/dev/null || ulimit -s 4000000 2>/dev/null; SV_BIGSTACK=1 OCAMLRUNPARAM=s=32M exec %s %s %s"
+                           exe (Filename.quote Sys.argv.(1)) (Filename.quote Sys.argv.(2))))
+    else begin
+      let base = Filename.temp_file "drvc07" "" in
+      let part kind j = Printf.sprintf "%s.%s.%d" base kind j in
+      for j = 0 to jobs - 1 do
+        let oc = open_out (part "cases" j) and oi = open_out (part "impl" j) in
+        let i = ref j in
+        while !i < n do output_string oc cases.(!i); output_char oc '\n'; output_string oi impl.(!i); output_char oi '\n'; i := !i + jobs done;
+        close_out oc; close_out oi
+      done;
+      let cmd = Buffer.create 256 in
+      Buffer.add_string cmd "ulimit -s unlimited 2>/dev/null || ulimit -s 4000000 2>/dev/null; ";
+      for j = 0 to jobs - 1 do
+        Buffer.add_string cmd (Printf.sprintf "SV_BIGSTACK=1 OCAMLRUNPARAM=s=8M %s %s %s > %s & "
+                                 exe (Filename.quote (part "cases" j)) (Filename.quote (part "impl" j)) (Filename.quote (part "out" j)))
+      done;
+      Buffer.add_string cmd "wait";
+      let _ = Sys.command (Buffer.contents cmd) in
+      let outs = Array.init jobs (fun j -> Array.of_list (lines (part "out" j))) in
+      let ok = ref true in
+      for i = 0 to n - 1 do
+        let a = outs.(i mod jobs) in
+        if i / jobs < Array.length a then print_endline a.(i / jobs) else ok := false
+      done;
+      for j = 0 to jobs - 1 do List.iter (fun k -> try Sys.remove (part k j) with _ -> ()) ["cases"; "impl"; "out"] done;
+      (try Sys.remove base with _ -> ());
+      exit (if !ok then 0 else 3)
+    end
   end
 let byte_memo : n array = Array.init 256 n_of_int
 let nlist_of_bytes (b : Bytes.t) : n list =
